@@ -341,3 +341,21 @@ Proof.
   destruct (body i) as [x|v| |r|k p'] eqn:Hb; try discriminate.
   destruct (run p') eqn:Hr; [discriminate|]. exists i, k, p'. repeat split; assumption.
 Qed.
+
+(* ---------------------------------------------------------------- one shared source, several users *)
+
+Lemma run_handle_of : forall os, run (handle_of os) = Some (Out (o_res os) XInline (o_ty os) []).
+Proof. reflexivity. Qed.
+
+(* whichever pipeline returns the shared handle from a callback, and whatever ran before (other pipelines that flattened
+   the same handle included), the step completes with the Result stored in the shared state and adds one invocation *)
+Lemma shared_handle_same_result : forall os q id par a rt body oq o i,
+  run q = Some oq -> run (PThen q id par a rt body) = Some o ->
+  invoked par (arrives a oq) = Some i -> body i = RetAsync KShared (handle_of os) ->
+  o_res o = o_res os /\ o_evs o = o_evs oq ++ [Ev id (exec_of a oq) (is_call a) i].
+Proof.
+  intros os q id par a rt body oq o i Hq H Hi Hb.
+  pose proof (invoked_outcome q id par a rt body oq o i Hq H Hi) as Ho. rewrite Hb in Ho.
+  destruct Ho as [oi [Hr [Hres Hev]]]. rewrite run_handle_of in Hr. inversion Hr; subst. cbn in *.
+  split; assumption.
+Qed.
